@@ -458,7 +458,18 @@ func (c *conn) WriteTo(w io.Writer) (n int64, err error) {
 }
 
 func (c *conn) Flush() error {
-	return c.loop.write(c)
+	if err := c.loop.write(c); err != nil {
+		return err
+	}
+	// In level-triggered mode nobody will retry the rest of the data unless
+	// the writable event is being monitored.
+	if !c.loop.engine.opts.EdgeTriggeredIO && c.opened && !c.outboundBuffer.IsEmpty() {
+		if err := c.loop.poller.ModReadWrite(&c.pollAttachment, false); err != nil {
+			_ = c.loop.close(c, os.NewSyscallError("flush", err))
+			return err
+		}
+	}
+	return nil
 }
 
 func (c *conn) InboundBuffered() int {
